@@ -381,8 +381,7 @@ func (u *Universe) zeroOf(t types.Type) Term {
 	case *types.Interface:
 		return Term{"iface_nil", "Iface"}
 	case *types.Array:
-		s := u.sortOf(t)
-		return Term{fmt.Sprintf("((as const %s) %s)", s, literalize(u.zeroOf(tt.Elem()).S)), s}
+		return u.constArray("Int", u.sortOf(tt.Elem()), u.zeroOf(tt.Elem()))
 	case *types.Struct:
 		si := u.structOf(t)
 		if len(si.fields) == 0 {
@@ -492,4 +491,18 @@ func sortedKeys[V any](m map[string]V) []string {
 func literalize(s string) string {
 	r := strings.NewReplacer("slice_nil", "(mk_slice 0 0 0 0)", "iface_nil", "(mk_iface 0 0)", "time_zero_ns", "(- 62135596800000000000)", "time_zero", "(mk_time (- 62135596800000000000) 0)")
 	return r.Replace(s)
+}
+
+// constArray returns the array mapping every key to zero. cvc5 accepts `as const` only with syntactic values, so for
+// element sorts whose zero mentions an uninterpreted constant (strings) a named array with a defining axiom is used.
+func (u *Universe) constArray(keySort, valSort string, zero Term) Term {
+	as := arraySort(keySort, valSort)
+	lit := literalize(zero.S)
+	if !strings.Contains(lit, "str_empty") {
+		return Term{fmt.Sprintf("((as const %s) %s)", as, lit), as}
+	}
+	n := "zarr_" + mangle(as)
+	u.ufunc(n, nil, as)
+	u.axiom(fmt.Sprintf("(forall ((i %s)) (! (= (select %s i) %s) :pattern ((select %s i))))", keySort, n, zero.S, n))
+	return Term{n, as}
 }
